@@ -6,7 +6,7 @@ CONFIG = {
     "sources": ["VProps/C03.lean", "VProps/C04.lean", "VProps/C05.lean", "VModel/EventParse.lean", "VModel/EventSpec.lean",
                 "VModel/Redact.lean", "VModel/Hash.lean", "VModel/EventBuild.lean", "VProofs/EventParse.lean", "VProofs/RedactCongr.lean",
                 "VProofs/RedactLookup.lean", "VProofs/RedactCore.lean", "VProofs/RedactMaps.lean", "VProofs/RedactMain.lean",
-                "VProofs/RedactExact.lean", "VProofs/EventBuildRoundtrip.lean", "VProofs/EventTamper.lean"],
+                "VProofs/RedactExact.lean", "VProofs/EventBuildRoundtrip.lean", "VProofs/EventTamper.lean", "VProofs/EventIdInj.lean"],
     "theorems": [
         "V.C03.tables_ok", "V.C03.referenceID_ignores_unsigned", "V.C03.eventID_ignores_unsigned",
         "V.C03.referenceID_ignores_signatures", "V.C03.eventID_ignores_signatures", "V.C03.eventID_redact_invariant",
@@ -20,6 +20,9 @@ CONFIG = {
         # proto-event) - what the untrusted constructors refuse; build_roundtrip never had a hypothesis about duplicate names, the CODE
         # returned such events
         "V.C03.build_refuses_duplicate_members", "V.C03.untrusted_refuses_duplicate_members",
+        # injectivity completed: equal IDs => equal hashes members (up to canonical form) and equal hashes.sha256; with valid content
+        # hashes => equal hashed bytes / equal hashed fields; the same at the level of EventBuilder.Build
+        "V.C03.eventID_determines_hashes", "V.C03.eventID_injective_hashed", "V.C03.build_eventID_injective",
     ],
     "rule": "event.build: EventBuilder.Build itself against its model (VModel.EventBuild.build: struct marshalling with omitempty, "
             "format-1 references incl. the partial base64 decode of eventHashFromEventID, content hash, signEvent with the signature "
@@ -59,9 +62,14 @@ CONFIG = {
         "writes in sjson's member order (event members, then _room_version, _event_id); the driver's op feeds the canonical rendering "
         "of that value instead (correspondence only for that spelling)",
         "eventID_injective concludes equality of the reference bytes (canonical encoding of the redacted, signature- and "
-        "unsigned-stripped event); the step 'proto-events differing in a hashed field give different hashes.sha256' is "
-        "hash_injective; extracting the hashes member from equal canonical encodings is not formalised (C01.encodeCanon_injective "
-        "gives equality of the sorted values)",
+        "unsigned-stripped event); eventID_determines_hashes extracts the hashes member from it (equal IDs => equal hashes member up to "
+        "canonical form, equal hashes.sha256 as gjson reads it), eventID_injective_hashed adds hash_injective (both content hashes valid "
+        "=> equal hashed bytes = every field but unsigned / signatures / hashes equal up to member order and -0), build_eventID_injective "
+        "states it for two successful EventBuilder.Build calls in one room version of event format 2 (any clocks, origins, key IDs, "
+        "signature bytes). Hypotheses: H injective; number literals of the JSON grammar (numsOk; ProtoOk at Build level, as in "
+        "build_roundtrip); no repeated TOP-LEVEL key (needed: gjson reads the first hashes member, redaction keeps the last one - the "
+        "kernel-evaluated pair exDupHashes has equal IDs and different hashes.sha256; the untrusted constructors refuse such events, "
+        "Build does not produce them). Nothing is assumed about duplicate keys inside hashes or elsewhere",
         "eventID_ignores_unsigned / _signatures at PDU level are stated for events without duplicate top-level keys (SetUnsigned / "
         "Sign re-marshal through a map)",
         "eventID_redact_invariant: hypothesis 'the event's JSON has no member with the exact key event_id' (a condition on the event, no "
